@@ -18,6 +18,10 @@ pub open spec fn mneg(a: Map<Commodity, real>) -> Map<Commodity, real> {
 pub open spec fn mscale(a: Map<Commodity, real>, k: real) -> Map<Commodity, real> {
     a.map_values(|v: real| v * k)
 }
+// every commodity rounded to its declared precision (none added, none dropped)
+pub open spec fn rounded(ctx: &ReportContext, m: Map<Commodity, real>) -> Map<Commodity, real> {
+    Map::new(m.dom(), |c: Commodity| ctx_round(ctx, c, m[c]))
+}
 pub open spec fn all_zero(m: Map<Commodity, real>) -> bool { forall|c: Commodity| m.contains_key(c) ==> m[c] == 0real }
 
 impl PostingAmount {
